@@ -18,7 +18,7 @@ def native(name, crate, cmd, **kw):
 PROPERTIES = {
     "C01": {
         "level": "exploration",
-        "rule": ("adaptive random add/cancel/fetch histories on CQueue over (n,t) in {1,2,3,7,10,32,1024,1028} x {1ns..3s} with times chosen relative "
+        "rule": ("adaptive random add/cancel/fetch histories on CQueue over (n,t) in {1,2,3,7,10,32,1024,1028} x {1 ns..3 s, 2^61 ns, 2^62+12345 ns (timestamps beyond 2^64 ns)} with times chosen relative "
                  "to the queue time (zero bucket, bucket and year boundaries, ties, far outliers), plus every operation sequence of the enumeration "
                  "depth over add(+0,1,2,3,4,8 ns)/cancel(any handle)/fetch on 4 tiny configurations; oracle = multiset model + structure walk (hook H1) "
                  "+ scan bound (H7). A history is non-trivial if it fetched at least once and cancelled a pending event or fetched from a tie group; "
@@ -396,7 +396,7 @@ PROPERTIES = {
         "rule": ("generated simulations: 1..6 modules (top-level modules form a gate ring, possibly a self loop; others are children), ring channels none / latency "
                  "only / slow (messages pile up in the channel queue) / fast, per module: self messages, a start burst on the ring, tasks (sleeper loop, receiver "
                  "on a never-fed channel, pending, finite, spawn_local sleeper), forwarding with a hop budget, messages held in module state, shutdown / "
-                 "shutdown-and-restart / panic at the k-th message, messages sent from at_sim_end, processing element, channel probe, in a fifth of the models a closed ring of 3..6 transit gates (never used for traffic) with a channel that carries a probe; identity tokens in all of "
+                 "shutdown-and-restart / panic at the k-th message, messages sent from at_sim_end, processing element, channel probe, in a fifth of the models a closed ring of 3..6 transit gates (never used for traffic) with a channel that carries a probe, in a quarter 1..3 extra nodes built from AsyncFn::new / failable / io (task blocked on its receiver), HandlerFn and ModuleFn; identity tokens in all of "
                  "these. Stop points: builder dropped, runtime dropped before run, stepped n events and abandoned, stepped and finished, event limit (EVERY "
                  "prefix 0..24 for a share of the small models), time limit, completion, error exit. Oracle: after dropping whatever was returned every token "
                  "was dropped exactly once (none alive, none twice), the statics are clean, and a fixed follow-up simulation reproduces the trace it has in a "
@@ -519,3 +519,21 @@ PROPERTIES = {
         },
     },
 }
+
+
+# ---------------------------------------------------------------------------------------------------------
+# The case budgets of these drivers were multiplied after the first timing measurements (quick: about 10-40 s per
+# property on 16 cores); the coverage floors above were written for the original budgets and scale with them.
+# Floors of sanitizer / alternative-backend stages, of enumerated parts and of maxima are independent of the budget.
+# ---------------------------------------------------------------------------------------------------------
+SCALE = {
+    "C04": (15, 8), "C05": (16, 12), "C06": (12, 8), "C08": (12, 8), "C09": (15, 10), "C11": (3, 3),
+    "C14": (20, 12), "C16": (25, 12), "C17": (15, 10), "C18": (10, 8), "C07": (5, 4), "C19": (10, 7),
+}
+_UNSCALED = ("max_", "miri_", "asan_", "memcheck_", "heap_", "enumerated_", "body_types", "boundary_grid_cases")
+for _pid, (_fq, _ft) in SCALE.items():
+    for _tier, _factor in (("quick", _fq), ("thorough", _ft)):
+        _floor = PROPERTIES[_pid].get("floor", {}).get(_tier, {})
+        for _key in list(_floor):
+            if not _key.startswith(_UNSCALED):
+                _floor[_key] = int(_floor[_key] * _factor)
